@@ -185,6 +185,18 @@ def paths_rule(ctx):
                 continue
             calls = []
             for n in sir.walk(arm["body"]):
+                if n.get("k") == "mcall" and not n["m"].startswith("to_proc_gen_rec") and sir.root_expr_name(n["recv"]) == b:
+                    # a private helper that generates `self` through one of the generator methods: judge the inner call with the
+                    # helper's parameters replaced by the arguments of this call
+                    hs = [g for g in tc.fns if g.name == n["m"] and g.base == "Expression" and g.body]
+                    if len(hs) == 1:
+                        inner = [x for x in sir.walk(hs[0].body) if x.get("k") == "mcall" and x["m"].startswith("to_proc_gen_rec") and sir.expr_str(sir.strip_ref(x["recv"])) == "self"]
+                        pn = [p_ for p_ in hs[0].param_names() if p_ != "self"]
+                        if len(inner) == 1 and len(pn) == len(n["args"]):
+                            amap = {p_: a for p_, a in zip(pn, n["args"])}
+                            virt = {"k": "mcall", "m": inner[0]["m"], "recv": n["recv"], "args": [amap.get(sir.expr_str(sir.strip_ref(a)), a) for a in inner[0]["args"]], "sp": n["sp"], "_helper": n}
+                            calls.append(virt)
+                            continue
                 if n.get("k") == "mcall" and n["m"].startswith("to_proc_gen_rec"):
                     r = sir.root_expr_name(n["recv"])
                     if r == b:
@@ -204,7 +216,7 @@ def paths_rule(ctx):
                         problems.append("generated with a private accumulator instead of the caller's `%s`" % acc_param)
                 elif m in ("to_proc_gen_rec", "to_proc_gen_rec_and_combine_paths"):
                     # result must be bound and used
-                    p = pm.get(id(c))
+                    p = pm.get(id(c.get("_helper", c)))
                     while p is not None and p.get("k") in ("try", "ref"):
                         p = pm.get(id(p))
                     if p is None or p.get("k") != "local":
@@ -340,7 +352,14 @@ def runtime_rule(ctx):
                 if ifs:
                     c = sir.expr_str(ifs[0]["cond"]).replace(" ", "")
                     d = c
-                    okc = c in ("sub_p.len()>0", "!sub_p.is_empty()", "sub_p.len()>=1", "sub_p.len()!=0")
+                    et = sir.emptiness_test(ifs[0]["cond"])
+                    if et and et[0] == "sub_p" and ifs[0].get("else") is not None:
+                        nonempty_branch = ifs[0]["then"] if et[1] else ifs[0]["else"]
+                        empty_branch = ifs[0]["else"] if et[1] else ifs[0]["then"]
+
+                        def reports(b):
+                            return any(x.get("k") == "call" and sir.call_name(x) == "Some" for x in sir.walk(b)) and any((sir.write_fmt_call(x) or (None, []))[1] == [("lit", "undefined")] for x in sir.walk(b))
+                        okc = reports(nonempty_branch) and not reports(empty_branch)
         obs.append(ob("C06.runtime/notinpath", okc, ctx.where(f), "a computed operand that read at least one path still reports a (truthy-testable) state: condition `%s`" % d,
                       witness=None if okc else "<t is=\"x\" data=\"{{ bb: a + 1 }}\"/> : marking only `a` does not reach the sub-template"))
         pre = any(n.get("k") == "call" and (sir.call_path(n) or "").endswith("to_path_analysis_str_group_prefix") for n in sir.walk(f.body))
